@@ -130,8 +130,16 @@ class _Generator(Generator):
         suffix = type_name[:-2]
         location = self.location_inner()
 
-        if type_.number_of_bits in [8, 16, 32, 64] and \
-                checker.minimum in [0, -128, -32768, -2147483648, -9223372036854775808]:
+        # The whole range of the C type: append and read it as it is.
+        type_length = self.type_length(checker.minimum, checker.maximum)
+
+        if checker.minimum < 0:
+            type_minimum = -2 ** (type_length - 1)
+        else:
+            type_minimum = 0
+
+        if (type_.number_of_bits == type_length
+                and checker.minimum == type_minimum):
             return (
                 [
                     'encoder_append_{}(encoder_p, src_p->{});'.format(
